@@ -29,6 +29,11 @@ def all_attr_names():
     return names
 
 
+def docs_roots(at):
+    from mc import docs
+    return docs.type_roots(at)
+
+
 def lexical_name(at):
     """element name in lexical.xsd that validates attribute type `at` (None if not expressible)"""
     if at is None or at.startswith('ref:'):
@@ -144,6 +149,10 @@ def work(arg):
                 values.append(('valid', 'a', 'a'))
             if tv.get('invalid') is not None:
                 values.append(('invalid', py_value(at, tv['invalid']), tv['invalid']))
+            if values and isinstance(values[0][1], int) and not isinstance(values[0][1], bool) and \
+                    docs_roots(at) and docs_roots(at) <= {'xs:integer', 'xs:nonNegativeInteger', 'xs:positiveInteger'}:
+                # the float twin of a valid integer is not a value of an integer type (offered AFTER the integer)
+                values.append(('float-twin', float(values[0][1]), None))
             values.append(('wrong-type', ['x'], None))
             values.append(('none', None, None))
             for vclass, pv, lex in values:
